@@ -103,8 +103,17 @@ static RoleCtx& get_role(Session& S, const std::string& role, uint32_t np) {
 }
 
 // The healthy peer asks for a block of piece 0 and must receive exactly the content.
-static std::string healthy_check(Session& S, RoleCtx& rc) {
+static std::string healthy_check(Session& S, RoleCtx& rc, bool alive_only = false) {
   WirePeer& H = *rc.healthy;
+  if (alive_only) {
+    // initial seeding serves only the chunks it offered and drops requests for chunks it has seen on two
+    // peers (the hostile ones count): the healthy peer is judged on its connection being kept
+    H.send_bytes(WirePeer::keepalive());
+    pump(S, {&H});
+    if (!H.eof && S.find_connection(rc.T, H.local_port()) != nullptr) return "OK";
+    connect_healthy(S, rc);
+    return "FAIL:dropped";
+  }
   uint32_t off = 64 * (g_conn_no % 100), len = 1000;
   drop_messages(H);
   H.send_bytes(WirePeer::request(0, off, len));
@@ -173,6 +182,10 @@ struct Seg { uint32_t cap; std::vector<size_t> lens; };
 static std::string run_one(Session& S, RoleCtx& rc, std::map<std::string, std::string>& kv, const Seg& seg, std::string& d2) {
   Torrent* T = rc.T;
   const std::string stream = unhex(kv["stream"]), ho = unhex(kv["ho"]);
+  // healthy peers of every torrent say something (the library drops peers silent for 240 s of virtual time)
+  for (auto& kvp : g_roles)
+    if (kvp.second.healthy && kvp.second.healthy->fd != -1) kvp.second.healthy->send_bytes(WirePeer::keepalive());
+  S.step();
   S.avoid_tick_within(30 * 1000000ll);
   WirePeer P;
   if (!P.connect_to(S.listen_port(), fresh_ip().c_str(), 1 << 20, 0)) return "ERR:connect";
@@ -252,7 +265,7 @@ static std::string run_exact(Session& S, std::map<std::string, std::string>& kv)
     if (q == std::string::npos) break;
     p = q + 1;
   }
-  return out + " || " + out2 + " ;; healthy=" + healthy_check(S, rc);
+  return out + " || " + out2 + " ;; healthy=" + healthy_check(S, rc, kv["role"] == "iseed");
 }
 
 // ------------------------------------------------------------------------------------------
